@@ -132,6 +132,36 @@ def etree_iter_strings(elem: Union[DocumentProtocol, ElementProtocol],
                 yield e.tail
 
 
+def etree_iter_text(elem: Union[DocumentProtocol, ElementProtocol]) -> Iterator[str]:
+    """Iterates the text and tail chunks of the tree in document order (XDM text nodes)."""
+    if hasattr(elem, 'getroot'):
+        elem = cast(DocumentProtocol, elem).getroot()
+    if elem is None or callable(elem.tag):
+        return
+    if elem.text is not None:
+        yield elem.text
+
+    iterators: list[Any] = []
+    children: Iterator[Any] = iter(elem)
+    while True:
+        for e in children:
+            if not callable(e.tag):
+                if e.text is not None:
+                    yield e.text
+                if len(e):
+                    iterators.append((children, e))
+                    children = iter(e)
+                    break
+            if e.tail is not None:
+                yield e.tail
+        else:
+            if not iterators:
+                return
+            children, e = iterators.pop()
+            if e.tail is not None:
+                yield e.tail
+
+
 def etree_deep_equal(e1: ElementProtocol, e2: ElementProtocol) -> bool:
     if e1.tag != e2.tag:
         return False
@@ -294,5 +324,5 @@ def etree_tostring(elem: ElementType,
 
 __all__ = ['SafeExpatParser', 'defuse_xml', 'is_etree_element', 'is_lxml_etree_element',
            'is_etree_element_instance', 'is_etree_document', 'is_lxml_etree_document',
-           'is_etree_document_instance', 'etree_iter_strings', 'etree_deep_equal',
+           'is_etree_document_instance', 'etree_iter_strings', 'etree_iter_text', 'etree_deep_equal',
            'etree_iter_paths', 'etree_tostring']
